@@ -448,6 +448,23 @@ pub fn one(acc: &mut Acc, prop: &'static str, ctx: &MCTPSMBusContext, probe: &MC
 }
 
 pub fn replay_enc(prop: &str, case: &Value) -> Result<ReplayOut, String> {
+    if case["check"].as_str() == Some("damaged") {
+        let cfg: Cfg = get_de(case, "cfg")?;
+        let call: EncCall = get_de(case, "call")?;
+        let pos = get_u64(case, "pos")? as usize;
+        let owned = Owned::new(&cfg);
+        let ctx = owned.ctx();
+        let probe = owned.ctx();
+        let first = run_enc(&ctx, &call, 0x34, 1024, 2);
+        let EncOut::Ok(n) = first.out else { return Err("call does not encode".into()) };
+        let mut pre = first.buf[..n.min(first.buf.len())].to_vec();
+        let pp = pos.min(pre.len() - 1);
+        pre[pp] ^= 0xFF;
+        set_prefill(Some(pre));
+        let j = judge_enc(prop, &ctx, &probe, cfg.addr, 0, &call, 0x34, 0, true);
+        set_prefill(None);
+        return Ok(ReplayOut { violations: j.viols.into_iter().map(|(k, d)| format!("{}: {}", k, d)).collect(), observed: j.observed });
+    }
     if case["check"].as_str() == Some("encseq") {
         let cfg: Cfg = get_de(case, "cfg")?;
         let history: Vec<Event> = get_de(case, "history")?;
@@ -530,7 +547,111 @@ pub fn encseq_alphabet() -> Vec<Event> {
     bad[n - 1] ^= 0x10;
     v.push(Event::Process(bad));
     v.push(Event::SetUuid(U1));
+    // a peer's Get Endpoint ID response (in the 4-data-byte form the library's decoder accepts)
+    // reporting an EID that differs from the peer's address
+    v.push(Event::Process(forge_response(0x34, SEQ_OWN, 0, 0x02, 0, &[0x47, 0x00, 0x00, 0x00])));
+    // an assignment whose SMBus source address (0x77) does not name the same device as its source EID (0x34)
+    let mut odd = set_eid_req(0x34, SEQ_OWN, 1, 0x58);
+    odd[3] = (0x77 << 1) | 1;
+    fix_pec(&mut odd);
+    v.push(Event::Process(odd));
     v
+}
+
+/// ENCDEEP: a small alphabet explored deeper -- 5 short encoder calls of
+/// different families and byte counts x 5 destinations, every sequence of length
+/// <= 5 (caches with several slots, move-to-front tables, retry budgets).
+pub fn encdeep_alphabet() -> Vec<Event> {
+    use EncCall::*;
+    let calls: Vec<EncCall> = vec![
+        ReqGetEid,
+        ReqGetVersion { q: 0 },
+        Vendor { fmt: 0, data: 0x1AF4, num: 1, msg: vec![0x51; 4] },
+        Raw { half: Half::Req, writer: Writer::Spdm, hdr: None, data: vec![0x57; 4] },
+        RespVersion { cc: 0 },
+    ];
+    let mut v = vec![];
+    for c in &calls {
+        for dst in [0x10u8, 0x11, 0x12, 0x13, 0x14] {
+            v.push(Event::Encode { call: c.clone(), dst });
+        }
+    }
+    v
+}
+
+pub fn sweep_encdeep(run: &mut Run, prop: &'static str) {
+    let depth: u32 = if run.tier.thorough() { 6 } else { 5 };
+    let alphabet = encdeep_alphabet();
+    let a = alphabet.len() as u64;
+    let cfg = encseq_cfg();
+    let total: u64 = (1..=depth).map(|d| a.pow(d)).sum();
+    run.bound("encdeep_depth", depth as u64);
+    run.sweep(&format!("ENCDEEP: every sequence of length <= {} over {} events (5 encoder calls x 5 destinations), last call judged", depth, a), total, |acc, k| {
+        let mut r = k;
+        let mut len = 1u32;
+        while r >= a.pow(len) {
+            r -= a.pow(len);
+            len += 1;
+        }
+        let mut history = vec![];
+        for _ in 0..len {
+            history.push(alphabet[(r % a) as usize].clone());
+            r /= a;
+        }
+        let Some(Event::Encode { call, dst }) = history.pop() else { return };
+        acc.evals += 1;
+        let j = judge_encseq(prop, &cfg, &history, &call, dst, false, false);
+        acc.trans += history.len() as u64 + 1;
+        acc.validated += 1;
+        if k % 97 == 0 {
+            acc.state(Fnv::default().u64(0xDEE9).u64(k).finish());
+        }
+        if j.produced && len >= 4 {
+            acc.nontrivial(Fnv::default().u64(0xDEEA).u64(k).finish());
+        }
+        acc.outcome2("encdeep", if j.produced { "ok" } else { "no-packet" });
+        for (kind, d) in j.viols {
+            acc.violation(len as u64, kind, format!("after {} earlier encoder call(s): {}", len - 1, d), || json!({"prop": prop, "check": "encseq", "cfg": cfg, "history": history, "call": call, "dst": dst, "reuse": false}));
+        }
+    });
+}
+
+/// The buffer already holds this very packet with one byte damaged (every byte
+/// in turn): an encoder that recognises "already there" must still repair it.
+pub fn sweep_damaged_prefill(run: &mut Run, prop: &'static str) {
+    let basic = basic_calls();
+    let cfg = encseq_cfg();
+    // index -> (call, damaged position); positions beyond the packet are skipped
+    run.sweep("buffer pre-filled with the call's own packet with one byte damaged (every position) x 30 kinds x 2 tuples", basic.len() as u64 * 270, |acc, k| {
+        let call = &basic[(k / 270) as usize];
+        let pos = (k % 270) as usize;
+        let EncExp::Bytes(exp) = expect(call, cfg.addr, 0x34, 0) else { return };
+        if pos >= exp.len() {
+            return;
+        }
+        let owned = Owned::new(&cfg);
+        let ctx = owned.ctx();
+        let probe = owned.ctx();
+        // what the library itself writes for this call (so that its own bytes, not the reference's, are in the buffer)
+        let first = run_enc(&ctx, call, 0x34, 1024, 2);
+        let EncOut::Ok(n) = first.out else { return };
+        let mut pre = first.buf[..n.min(first.buf.len())].to_vec();
+        if pos >= pre.len() {
+            return;
+        }
+        pre[pos] ^= 0xFF;
+        acc.evals += 1;
+        set_prefill(Some(pre));
+        let j = judge_enc(prop, &ctx, &probe, cfg.addr, 0, call, 0x34, 0, false);
+        set_prefill(None);
+        acc.trans += 2;
+        acc.validated += 1;
+        acc.nontrivial(Fnv::default().u64(0xDA3A).u64(k).finish());
+        for (kind, d) in j.viols {
+            let history = vec![Event::Encode { call: call.clone(), dst: 0x34 }];
+            acc.violation(1, kind, format!("buffer held this packet with byte {} inverted: {}", pos, d), || json!({"prop": prop, "check": "damaged", "cfg": cfg, "history": history, "call": call, "dst": 0x34, "pos": pos}));
+        }
+    });
 }
 
 fn encseq_cfg() -> Cfg {
@@ -676,6 +797,8 @@ pub fn run_c03(run: &mut Run) {
     c03_responses(run);
     sweep_encseq(run, "C03");
     enc_pairs(run, "C03");
+    sweep_encdeep(run, "C03");
+    sweep_damaged_prefill(run, "C03");
 }
 
 /// C03 also covers the packets the library encodes on its own: the responses
@@ -766,6 +889,7 @@ pub fn run_c04(run: &mut Run) {
     sweep_enc(run, "C04", "writers x every data length 0..=300 x contents", n, &f, &Addrs::List(vec![(0x55, 0x2A)]), 1);
     sweep_encseq(run, "C04");
     enc_pairs(run, "C04");
+    sweep_encdeep(run, "C04");
 }
 
 pub fn run_c05(run: &mut Run) {
@@ -783,6 +907,7 @@ pub fn run_c05(run: &mut Run) {
     spaces_sweep(run, "C05", &sp, &a, 1);
     sweep_encseq(run, "C05");
     enc_pairs(run, "C05");
+    sweep_encdeep(run, "C05");
 }
 
 pub fn run_c06(run: &mut Run) {
@@ -801,6 +926,7 @@ pub fn run_c06(run: &mut Run) {
     sweep_enc(run, "C06", "request tuples x 5 pairs x 4 ctxs", basic.len() as u64, &|i| basic[i as usize].clone(), &five_pairs(), 4);
     sweep_encseq(run, "C06");
     enc_pairs(run, "C06");
+    sweep_encdeep(run, "C06");
 }
 
 /// C07 adds the stored-EID dimension through context histories.
@@ -862,6 +988,7 @@ pub fn run_c07(run: &mut Run) {
     });
     sweep_encseq(run, "C07");
     enc_pairs(run, "C07");
+    sweep_encdeep(run, "C07");
 }
 
 pub fn run_c08(run: &mut Run) {
@@ -870,7 +997,36 @@ pub fn run_c08(run: &mut Run) {
     spaces_sweep(run, "C08", &sp, &Addrs::List(vec![(0x23, 0x34)]), 1);
     let basic: Vec<EncCall> = basic_calls().into_iter().filter(|c| !c.is_request() && !c.is_response()).collect();
     sweep_enc(run, "C08", "vendor/raw tuples x 5 pairs x 4 ctxs", basic.len() as u64, &|i| basic[i as usize].clone(), &five_pairs(), 4);
+    if run.tier.thorough() {
+        // all 2^32 IANA numbers, each on a context that has just encoded a PCI message for 0x8086
+        // (and all 65 536 PCI ids after an IANA message): anything that keys the two formats on a
+        // common digest collides for some pair in here
+        let cfg = encseq_cfg();
+        run.sweep_chunked("all 2^32 IANA numbers after a PCI 0x8086 message on the same context", 1u64 << 32, |acc, lo, hi| {
+            let owned = Owned::new(&cfg);
+            let pci = EncCall::Vendor { fmt: 0, data: 0x8086, num: 1, msg: vec![0x11] };
+            let mut buf = [0u8; 64];
+            for i in lo..hi {
+                let ctx = owned.ctx();
+                let _ = subject::encode(&ctx, &pci, 0x34, &mut buf);
+                let call = EncCall::Vendor { fmt: 1, data: i as u32, num: 1, msg: vec![] };
+                let mut out = [0u8; 32];
+                let r = subject::encode(&ctx, &call, 0x34, &mut out);
+                let d = (i as u32).to_be_bytes();
+                let ok = r == EncOut::Ok(14) && out[8] == 0x7F && out[9..13] == d && crc8(&out[..14]) == 0;
+                if !ok {
+                    let history = vec![Event::Encode { call: pci.clone(), dst: 0x34 }];
+                    acc.violation(2, "body", format!("IANA {:#010x} after a PCI message: {:?} {}", i, r, hex(&out[..16])), || json!({"prop": "C08", "check": "encseq", "cfg": cfg, "history": history, "call": call, "dst": 0x34, "reuse": false}));
+                }
+            }
+            let k = hi - lo;
+            acc.evals += k;
+            acc.trans += 2 * k;
+            acc.validated += k;
+        });
+    }
     sweep_encseq(run, "C08");
+    sweep_encdeep(run, "C08");
 }
 
 pub fn run_c16(run: &mut Run) {
@@ -887,6 +1043,8 @@ pub fn run_c16(run: &mut Run) {
     sweep_enc(run, "C16", "set_endpoint_id EID in {0x00,0xFF,0x01,0xFE} x 4 ops x 128x128", 16, &|i| EncCall::ReqSetEid { op: (i / 4) as u8, eid: [0x00, 0xFF, 0x01, 0xFE][(i % 4) as usize] }, &Addrs::All7, 1);
     sweep_encseq(run, "C16");
     enc_pairs(run, "C16");
+    sweep_encdeep(run, "C16");
+    sweep_damaged_prefill(run, "C16");
 }
 
 /// ENCPAIR: every ordered pair (previous, current) over complete small argument
